@@ -113,7 +113,7 @@ func genConfig(r *rng) cfgCase {
 	case defect < 74:
 		c.expect, c.kind = "reject", "malformed-colour"
 		k := []string{"primary", "error", "highlight", "code_background"}[r.intn(4)]
-		bad := []string{"ffffff", "#fffff", "#fffffff", "#gggggg", "", "#12345z", " #ffffff", "#ffffff ", "red", "#+1+1+1", "#-1-1-1", "# 1 2 3", "#0x0x0x", "rgb(1,2,3)", "#１２３４５６"}[r.intn(15)]
+		bad := []string{"ffffff", "#fffff", "#fffffff", "#gggggg", "", "#12345z", " #ffffff", "#ffffff ", "red", "#+1+1+1", "#-1-1-1", "# 1 2 3", "#-00001", "#+fffff", "#-10000", "#-fffff", "#+00000", "#0x1234", "#1e3e5f"[0:6]+"_", "#00_0ff", "#0x0x0x", "rgb(1,2,3)", "#１２３４５６"}[r.intn(23)]
 		styleLines = append(styleLines, fmt.Sprintf("%s = %s", k, tomlStr(bad)))
 		haveStyle = true
 	case defect < 100:
